@@ -779,11 +779,26 @@ class Gen:
 		if rng.random() < 0.25:
 			body.append(self.line(ind + 1, '"""doc %d"""' % self.n))
 		if name == '__init__' and rng.random() < 0.8:
-			for _ in range(rng.choice([1, 2])):
+			for _ in range(rng.choice([1, 2, 3])):
 				attr = self.fresh('m')
-				body.append(self.line(ind + 1, f'self.{attr}' + (f': {self.type_expr(1)}' if rng.random() < 0.5 else '') + f' = {self.expr(1)}'))
+				r3 = rng.random()
+				# what is assigned to: the attribute itself (a declaration), or something reached THROUGH self (not one)
+				target = (f'self.{attr}' if r3 < 0.55 else f'self.{self.name()}.{attr}' if r3 < 0.67 else f'self.{self.name()}().{attr}' if r3 < 0.76
+					else f'self.{self.name()}[{self.expr(1)}].{attr}' if r3 < 0.85 else f'self.{attr}, self.{self.fresh("m")}' if r3 < 0.92 else f'{self.name()}.self.{attr}')
+				# an annotation on a target that is no declaration (`self.a.b: T = v`) is the known finding
+				# raise:AnnoAssign.receiver:Errors.IllegalConvertion — generated, but rarely: it aborts the comparison of the program
+				plain = r3 < 0.55
+				ann = f': {self.type_expr(1)}' if ',' not in target and rng.random() < (0.4 if plain else 0.06) else ''
+				body.append(self.line(ind + 1, f'{target}{ann} = {self.expr(1)}'))
+			if rng.random() < 0.2:
+				body.append(self.line(ind + 1, f'if {self.name()}:'))
+				body.append(self.line(ind + 2, f'self.{self.fresh("m")} = {self.expr(1)}'))
+			if rng.random() < 0.15:
+				body.append(self.line(ind + 1, f'self.{self.fresh("m")} += {self.expr(1)}'))
 			if rng.random() < 0.4:
 				body.append(self.line(ind + 1, f'super().__init__({self.items(1)})'))
+		if first == 'self' and name != '__init__' and rng.random() < 0.25:
+			body.append(self.line(ind + 1, f'self.{self.fresh("m")} = {self.expr(1)}'))  # outside the constructor: a plain attribute assignment
 		body += self.block(d, 'method' if in_class else 'func', ind + 1)
 		if rng.random() < 0.12:
 			# a class declared inside this function / method (function → class → def, class → method → class → def): the defs of its
@@ -1057,7 +1072,8 @@ class PyCanon:
 		"""`direct`: the statements of a class body itself; `owner`: the def/class whose body this is (doc-string handling)"""
 		if owner is not None:
 			stmts = self.hoist_docstrings(stmts, owner)
-		return [self.stmt(s, scope, direct) for s in stmts]
+		ctor = isinstance(owner, ast.FunctionDef) and owner.name == '__init__'
+		return [self.stmt(s, scope, direct, ctor) for s in stmts]
 
 	def is_docstring_stmt(self, s: ast.stmt) -> bool:
 		if not (isinstance(s, ast.Expr) and isinstance(s.value, ast.Constant) and isinstance(s.value.value, str)):
@@ -1102,12 +1118,18 @@ class PyCanon:
 					return closes_before_colon and (len(s.items) >= 2 or trailing_comma)
 		return False
 
-	def names_of_target(self, t: ast.expr) -> list[str]:
-		if isinstance(t, ast.Tuple):
-			return [self.expr(e, store=True) for e in t.elts]
-		return [self.expr(t, store=True)]
+	def names_of_target(self, t: ast.expr, ctor: bool = False) -> list[str]:
+		elts = t.elts if isinstance(t, ast.Tuple) else [t]
+		out = [self.expr(e, store=True) for e in elts]
+		# an instance variable is DECLARED by `self.<name> = …` / `self.<name>: T = …` written as a statement of the body of a
+		# function called `__init__`, `self.<name>` being the (first) target: exactly `Attribute(Name('self'), name)` — not a
+		# longer chain through self (`self.a.b`, `self.f().x`, `self.a[0].x`: those assign into another object)
+		first = elts[0] if elts else None
+		if ctor and isinstance(first, ast.Attribute) and isinstance(first.value, ast.Name) and first.value.id == 'self':
+			out[0] = sx('AttrDecl', self.expr(first.value), first.attr)
+		return out
 
-	def stmt(self, s: ast.stmt, scope: str, direct: bool = False) -> str:
+	def stmt(self, s: ast.stmt, scope: str, direct: bool = False, ctor: bool = False) -> str:
 		e = self.expr
 		if isinstance(s, ast.Expr):
 			return sx('Expr', e(s.value))
@@ -1115,8 +1137,8 @@ class PyCanon:
 			if len(s.targets) != 1:
 				# tranp's reading: first target list, the second target as the value, the rest unreachable
 				self.mark('group:chained-assignment', s)
-				return sx('Assign', self.names_of_target(s.targets[0]), e(s.targets[1]))
-			return sx('Assign', self.names_of_target(s.targets[0]), e(s.value))
+				return sx('Assign', self.names_of_target(s.targets[0], ctor), e(s.targets[1]))
+			return sx('Assign', self.names_of_target(s.targets[0], ctor), e(s.value))
 		if isinstance(s, ast.AnnAssign):
 			ann = s.annotation
 			# grammar.lark's own forms `x: ClassVar = v` (class_var_assign → MoveAssign) and `x: ClassVar[T] = v`
@@ -1126,7 +1148,7 @@ class PyCanon:
 				return sx('Assign', [sx('Name', s.target.id, 'classvar')], e(s.value))
 			if isinstance(ann, ast.Subscript) and isinstance(ann.value, ast.Name) and ann.value.id == 'ClassVar' and s.value is not None and isinstance(s.target, ast.Name):
 				return sx('AnnAssign', sx('Name', s.target.id, 'classvar'), self.type(ann.slice), e(s.value))
-			return sx('AnnAssign', e(s.target, store=True), self.type(ann), e(s.value) if s.value else None)
+			return sx('AnnAssign', self.names_of_target(s.target, ctor)[0], self.type(ann), e(s.value) if s.value else None)
 		if isinstance(s, ast.AugAssign):
 			return sx('AugAssign', e(s.target), AUG_OPS[type(s.op)], e(s.value))
 		if isinstance(s, ast.Return):
@@ -1527,7 +1549,7 @@ class TranpCanon:
 		if c in ('Relay', 'DeclThisVar'):
 			if c == 'DeclThisVar':
 				# the receiver/prop split of a declared instance variable is read off its two children
-				return sx('Attr', e(n._at(0)), n._at(1).tokens)
+				return sx('AttrDecl', e(n._at(0)), n._at(1).tokens)
 			return sx('Attr', e(n.receiver), n.prop.tokens)
 		if c in ('FuncCall', 'Super'):
 			return sx('Call', e(n.calls), self.args(n.arguments))
@@ -1593,7 +1615,7 @@ def first_diff(a: str, b: str) -> str:
 CANON_VOCAB = {'Module', 'Expr', 'Assign', 'AssignChain', 'AnnAssign', 'AugAssign', 'Return', 'Pass', 'Break', 'Continue', 'Assert', 'Raise', 'Delete', 'If', 'Elif',
 	'While', 'For', 'Try', 'Handler', 'With', 'Item', 'Def', 'Class', 'Import', 'alias', 'Decorator', 'P', 'TName', 'TAttr', 'TNone', 'TEllipsis', 'TGeneric', 'TList',
 	'TUnion', 'pos', 'kw', 'star', 'dstar', 'Name', 'Const', 'Attr', 'Call', 'Index', 'Slice', 'Keys', 'UnaryOp', 'BinOp', 'BoolOp', 'Compare', 'cmp', 'IfExp',
-	'Lambda', 'List', 'Tuple', 'Dict', 'pair', 'Starred', 'ListComp', 'DictComp', 'for', 'Yield', 'Ellipsis', 'None', 'decl', 'ref', 'classvar',
+	'AttrDecl', 'Lambda', 'List', 'Tuple', 'Dict', 'pair', 'Starred', 'ListComp', 'DictComp', 'for', 'Yield', 'Ellipsis', 'None', 'decl', 'ref', 'classvar',
 	'Function', 'Method', 'ClassMethod', 'Constructor', 'Closure', *OP_NAMES, 'is_not', 'not_in'}
 
 
